@@ -22,6 +22,7 @@ type Env struct {
 	ex    *Exec
 	names map[string]Val
 	oldNames map[string]Val // values of names inside old(): parameters modified in place
+	pureCallbacks []string  // function-typed names callable in specs as deterministic functions
 	cur   *State
 	old   *State
 	pos   token.Pos // position for resolving Go locals by name (0 = none)
@@ -31,7 +32,7 @@ type Env struct {
 }
 
 func (e *Env) child() *Env {
-	n := &Env{ex: e.ex, names: map[string]Val{}, cur: e.cur, old: e.old, pos: e.pos, pkg: e.pkg, oldNames: e.oldNames}
+	n := &Env{ex: e.ex, names: map[string]Val{}, cur: e.cur, old: e.old, pos: e.pos, pkg: e.pkg, oldNames: e.oldNames, pureCallbacks: e.pureCallbacks}
 	for k, v := range e.names {
 		n.names[k] = v
 	}
@@ -369,6 +370,16 @@ func (env *Env) elabCall(e *SCall) Val {
 		return Val{T: app(f, ts...), S: SString}
 	}
 	if id, ok := e.Fun.(*SIdent); ok {
+		for _, n := range env.pureCallbacks {
+			if n == id.Name {
+				fv := env.elab(id)
+				if fv.GoT != nil {
+					if sig, isSig := under(fv.GoT).(*types.Signature); isSig {
+						return ex.callbackApp(fv, id.Name, sig, args())[0]
+					}
+				}
+			}
+		}
 		if _, bound := env.names[id.Name]; !bound {
 			switch id.Name {
 			case "len":
@@ -888,6 +899,16 @@ func (env *Env) elabCallMulti(e SExpr) []Val {
 	}
 	switch f := c.Fun.(type) {
 	case *SIdent:
+		for _, n := range env.pureCallbacks {
+			if n == f.Name {
+				fv := env.elab(f)
+				if fv.GoT != nil {
+					if sig, isSig := under(fv.GoT).(*types.Signature); isSig {
+						return ex.callbackApp(fv, f.Name, sig, args)
+					}
+				}
+			}
+		}
 		var fn *types.Func
 		if env.pkg != nil {
 			fn, _ = env.pkg.Scope().Lookup(f.Name).(*types.Func)
